@@ -298,14 +298,17 @@ pub struct FaultCase {
     suspends: usize,
     /// position of the faulty coroutine among the two healthy ones: 0, 1, 2
     position: usize,
+    /// an older coroutine with a large stack is dropped after the faulty one was created and before it
+    /// grows: the mapping of the grown segment then reuses that hole (it may lie ABOVE the initial stack)
+    hole: bool,
 }
 
 impl FaultCase {
     fn to_json(&self) -> Value {
-        json!({"fault": FAULTS[self.fault], "suspends_before_fault": self.suspends, "position_among_healthy": self.position})
+        json!({"fault": FAULTS[self.fault], "suspends_before_fault": self.suspends, "position_among_healthy": self.position, "older_coroutine_dropped_before_growth": self.hole})
     }
     fn from_json(v: &Value) -> Option<FaultCase> {
-        Some(FaultCase { fault: FAULTS.iter().position(|x| Some(*x) == v.get("fault").and_then(Value::as_str))?, suspends: v.get("suspends_before_fault")?.as_u64()? as usize, position: v.get("position_among_healthy")?.as_u64()? as usize })
+        Some(FaultCase { fault: FAULTS.iter().position(|x| Some(*x) == v.get("fault").and_then(Value::as_str))?, suspends: v.get("suspends_before_fault")?.as_u64()? as usize, position: v.get("position_among_healthy")?.as_u64()? as usize, hole: v.get("older_coroutine_dropped_before_growth").and_then(Value::as_bool).unwrap_or(false) })
     }
 }
 
@@ -331,6 +334,12 @@ fn dive(n: u64) -> u64 {
 pub fn exec_fault(c: &FaultCase, em: &mut Emitter) {
     std::panic::set_hook(Box::new(|_| {}));
     open_coroutine_core::verif::set_observe_hook(Some(trap_observer));
+    // (created first, so its stack is mapped before - i.e. above - those of the scheduler's coroutines)
+    let older: Option<SchedulableCoroutine<'static>> = if c.hole {
+        Some(open_coroutine_core::co!(Some("c24-older".to_string()), |_: &Suspender<(), ()>, ()| Some(0), Some(512 * 1024)).expect("older"))
+    } else {
+        None
+    };
     let mut sched = Scheduler::new("c24-sched".into(), 128 * 1024);
     let segs: Arc<Mutex<Vec<(usize, usize)>>> = Arc::new(Mutex::new(Vec::new()));
     let mut ids = Vec::new();
@@ -392,6 +401,7 @@ pub fn exec_fault(c: &FaultCase, em: &mut Emitter) {
             }, None, None).expect("submit healthy")));
         }
     }
+    drop(older);
     em.emit(json!({"t":"begin"}));
     let mut results: Vec<(usize, String)> = Vec::new();
     for _ in 0..6 {
@@ -412,8 +422,13 @@ pub fn exec_fault(c: &FaultCase, em: &mut Emitter) {
     let sp = TRAP_SP.load(Ordering::SeqCst) as usize;
     let inb_lib = TRAP_INB.load(Ordering::SeqCst);
     let inb_mine = segs.lock().unwrap().iter().any(|(b, t)| *b <= sp && sp < *t);
+    let grown_above = {
+        let g = segs.lock().unwrap();
+        g.len() == 2 && g[1].0 > g[0].0
+    };
     em.emit(json!({"t":"end","results":results.iter().map(|(w, r)| json!([w, r])).collect::<Vec<_>>(),"fresh":fresh_state,
-        "trap_seen": inb_lib != 9, "sp_inside_recorded_segments": inb_mine, "library_said_in_bounds": inb_lib == 1, "segments": segs.lock().unwrap().len()}));
+        "trap_seen": inb_lib != 9, "sp_inside_recorded_segments": inb_mine, "library_said_in_bounds": inb_lib == 1, "segments": segs.lock().unwrap().len(),
+        "grown_segment_above_the_initial_one": grown_above}));
     std::mem::forget(sched);
 }
 
@@ -465,6 +480,9 @@ pub fn judge_fault(c: &FaultCase, res: &ChildResult, rep: &mut Report) {
     }
     rep.witness(if inside { "faults_inside_segments" } else { "faults_outside_segments" });
     if c.fault >= 4 {
+        if e["grown_segment_above_the_initial_one"] == true {
+            rep.witness("faults_with_the_grown_segment_mapped_above_the_initial_one");
+        }
         if e["segments"].as_u64() == Some(2) {
             rep.witness("faults_with_a_grown_segment");
         } else {
@@ -478,7 +496,10 @@ pub fn fault_cases() -> Vec<FaultCase> {
     for fault in 0..FAULTS.len() {
         for suspends in 0..3 {
             for position in 0..3 {
-                v.push(FaultCase { fault, suspends, position });
+                v.push(FaultCase { fault, suspends, position, hole: false });
+                if fault >= 4 {
+                    v.push(FaultCase { fault, suspends, position, hole: true });
+                }
             }
         }
     }
@@ -505,7 +526,7 @@ pub fn run(scen: &str, tier: &str, rep: &mut Report) -> bool {
             // (with the default stacks a real overflow faults in the guard page, which belongs to
             // the segment; a fault with the stack pointer outside every segment is not producible
             // by these bodies, so only the inside direction is required to have occurred)
-            rep.require(&["faults_inside_segments", "faults_with_a_grown_segment"]);
+            rep.require(&["faults_inside_segments", "faults_with_a_grown_segment", "faults_with_the_grown_segment_mapped_above_the_initial_one"]);
             for c in cs.iter().step_by((cs.len() / 4).max(1)).take(4) {
                 rep.sample(c.to_json());
             }
